@@ -4,3 +4,8 @@ import OsacaVerif.Model.RegDep
 import OsacaVerif.Spec.RegUniverse
 import OsacaVerif.Lemmas.Text
 import OsacaVerif.Props.C12
+import OsacaVerif.Model.History
+import OsacaVerif.Model.HistoryGen
+import OsacaVerif.Spec.HistoryIndep
+import OsacaVerif.Lemmas.History
+import OsacaVerif.Props.C18
